@@ -121,6 +121,11 @@ def to_seq(eng, st, v):
     if isinstance(v, VObj) and v.kind == "pylist":
         items = st.objs[v.oid]["items"]
         return VSeq(z3.IntVal(len(items)), lambda s, i, items=items: items[_conc_index(i)], known_len=len(items), tag="pylist")
+    if isinstance(v, VObj) and v.kind == "tlist":
+        def tget(s, i, v=v):
+            r = s.objs[v.oid]
+            return VTuple([wrap(z3.Select(c, i), k) for c, k in zip(r["cols"], r["kinds"])])
+        return VSeq(st.objs[v.oid]["len"], tget, tag="tlist", src=v)
     if isinstance(v, VObj) and v.kind == "list":
         rec = st.objs[v.oid]
         n = rec["len"]
@@ -505,8 +510,56 @@ def dict_get(eng, st, d, key, default):
     return res
 
 
+def tlist_from_seq(eng, st, seq, base_len=None, base_cols=None, kinds=None):
+    """list of fixed-arity tuples of scalars as parallel arrays: result = base ++ seq"""
+    probe = seq.get(st, z3.Const(fresh_name("ti"), I))
+    if not (isinstance(probe, VTuple) and all(value_kind(x) for x in probe.items)):
+        raise Unsupported("list of non-scalar tuples")
+    kinds = kinds or [value_kind(x) for x in probe.items]
+    n0 = base_len if base_len is not None else z3.IntVal(0)
+    cols = []
+    axs = [seq.n >= 0]
+    j = _j()
+    for c, k in enumerate(kinds):
+        col = fresh(f"tl_col{c}", z3.ArraySort(I, sort_of(k)))
+        if base_cols is not None:
+            axs.append(FA([j], z3.Implies(z3.And(0 <= j, j < n0), z3.Select(col, j) == z3.Select(base_cols[c], j)), patterns=[z3.Select(col, j)]))
+        src = unwrap(seq.get(st, j - n0).items[c], k)
+        axs.append(FA([j], z3.Implies(z3.And(n0 <= j, j < n0 + seq.n), z3.Select(col, j) == src), patterns=[z3.Select(col, j)]))
+        cols.append(col)
+        # a list built by iterating a set contains every element of the set: if this component is the iteration variable
+        # itself, say where each element of the set landed (ghost inverse of the enumeration)
+        if isinstance(seq.src, tuple) and seq.src and seq.src[0] == "order" and len(seq.src) >= 4:
+            _, order, pos, sdom = seq.src[:4]
+            probe_j = z3.Const(fresh_name("cj"), I)
+            try:
+                comp = unwrap(seq.get(st, probe_j).items[c], k)
+                if z3.simplify(comp).eq(z3.simplify(z3.Select(order, probe_j))):
+                    x = z3.Const(fresh_name("cx"), order.sort().range())
+                    axs.append(FA([x], z3.Implies(z3.Select(sdom, x), z3.And(0 <= pos[x], pos[x] < seq.n,
+                                                                              z3.Select(col, n0 + pos[x]) == x)),
+                                  patterns=[z3.Select(sdom, x)]))
+            except Exception:  # noqa
+                pass
+    return st.assume(*axs), {"len": n0 + seq.n, "cols": cols, "kinds": kinds}
+
+
 def container_method(eng, st, recv, name, pos, kw):
     rec = st.objs[recv.oid]
+    if recv.kind == "tlist":
+        if name == "extend":
+            from . import comprehension as C
+            seq = to_seq(eng, st, pos[0])
+            outs = [("ok", st, seq)] if seq is not None else C.iterable_to_seq(eng, st, pos[0])
+
+            def go(s, sq):
+                r = s.objs[recv.oid]
+                s2, nr = tlist_from_seq(eng, s, sq, r["len"], r["cols"], r["kinds"])
+                return [("ok", s2.setobj(recv.oid, nr), NONE)]
+            return eng.bind(outs, go)
+        if name == "__len__":
+            return [("ok", st, VInt(rec["len"]))]
+        raise Unsupported(f"tuple-list.{name}")
     if recv.kind == "list":
         if name == "append":
             return list_append(eng, st, recv, pos[0])
